@@ -956,14 +956,21 @@ def _thr_shape(rng, N=None):
     return [1, N] if rng.random() < 0.7 else [N]
 
 
-def _thr_counts(rng, fn):
+def _thr_counts(rng, fn, big=False):
     """labeled_size / fullhistogram: one value covering more than 2^16 pixels, or values around the thresholds"""
     shape = _thr_shape(rng)
+    if big or rng.random() < 0.5:
+        # 2^18 and 2^20 pixels in one bin as well (several interleaved 16-bit counter tables wrap only there)
+        shape = rng.choice([[512, 513], [1, 2 ** 18 + 1], [1024, 1025], [4, 2 ** 16 + 1]])
     n = int(np.prod(shape))
-    if rng.random() < 0.5:
+    if n > 70000 or rng.random() < 0.5:
         data = [1] * n
         data[rng.randrange(n)] = 0
         dtype = rng.choice(['int32', 'uint32', 'int64', 'uint8'] if fn == 'size' else ['uint32', 'uint64', 'uint8', 'uint16'])
+        if n > 70000:
+            dtype = rng.choice(['uint8', 'uint8', 'uint16', 'int32'] if fn == 'size' else ['uint8', 'uint8', 'uint16'])
+            if big:
+                dtype = 'uint8' if big == 8 else 'uint16'
     else:
         v = rng.choice(THR_V)
         data = [rng.choice([0, v, v, v - 1, 3]) for _ in range(rng.choice([7, 300]))]
@@ -1051,7 +1058,8 @@ def _thr_remove(rng):
     return dict(fn='remove', shape=[N], labels=labels, regions=regions, inplace=False, big=N > 300, thr=1)
 
 
-THR_POOL = [lambda r: _thr_counts(r, 'size'), lambda r: _thr_counts(r, 'hist'), _thr_fold, _thr_fold, _thr_bbox, _thr_bboxl,
+THR_POOL = [lambda r: _thr_counts(r, 'size'), lambda r: _thr_counts(r, 'hist'), lambda r: _thr_counts(r, 'hist', big=8),
+            lambda r: _thr_counts(r, 'hist', big=16), lambda r: _thr_counts(r, 'size', big=8), _thr_fold, _thr_fold, _thr_bbox, _thr_bboxl,
             _thr_com, _thr_relabel, _thr_same, _thr_remove]
 
 
